@@ -98,6 +98,34 @@ pub fn monotone_siblings() -> Result<u64, Violation> {
             }
         }
     }
+    // nesting: one create_storage_all call makes a path of 300 storages (walk depth, path
+    // building and recursive removal have no small bound to hide behind)
+    for &version in &[3u8, 4u8] {
+        let depth = 300usize;
+        let path = |d: usize| -> String { (0..d).map(|i| format!("/n{}", i % 10)).collect::<String>() };
+        let mut ops = vec![Op::CreateStorageAll { p: raw(path(depth)) }];
+        for &d in &[1usize, 64, 65, 128, 255, 256, 257, 299, 300] {
+            ops.push(Op::CreateStream { p: raw(format!("{}/leaf", path(d))), data: DataSpec { len: (d as u32 * 31) % 5000, seed: d as u8 } });
+        }
+        ops.push(Op::Walk);
+        ops.push(Op::WalkStorage { p: raw(path(250)) });
+        ops.push(Op::List { p: raw(path(256)) });
+        ops.push(Op::Entry { p: raw(format!("{}/leaf", path(300))) });
+        ops.push(Op::Reopen { strict: true });
+        ops.push(Op::ReadAll { p: raw(format!("{}/leaf", path(257))) });
+        ops.push(Op::RemoveStorage { p: raw(path(200)) });
+        ops.push(Op::RemoveStorageAll { p: raw(path(200)) });
+        ops.push(Op::Walk);
+        ops.push(Op::CreateStorageAll { p: raw(format!("{}/again/x/y", path(199))) });
+        ops.push(Op::Walk);
+        let case = Case { version, max_buf: None, start: Start::Fresh, pool: vec![], ops };
+        let o = Oracles { dump_every: 0, final_reopen: true, checker_every: 1, ..Oracles::default() };
+        let out = run_case(&case, o, None);
+        count += 1;
+        if let Err(f) = out.result {
+            return Err(Violation { key: f.key, detail: format!("[300 nested storages, V{}] {}", version, f.detail), case: serde_json::to_value(&case).unwrap_or(Value::Null), trace: out.trace.into_iter().rev().take(12).rev().collect() });
+        }
+    }
     Ok(count)
 }
 
